@@ -17,7 +17,7 @@ def gen_case(seed, i, engine, heavy_failures):
     if heavy_failures:
         for _ in range(r.randint(5, 30)):
             lines.append("delete %s 0" % hx(PREFIX + b"/nonexistent"))
-    lines.append("sync")
+    lines.append("settle")
     lines += ["get %s 0" % hx(k) for k in keys]
     lines.append("list %s %s 0 0" % (hx(PREFIX + b"/"), hx(PREFIX + b"0")))
     lines.append("echo before-restart")
@@ -28,8 +28,8 @@ def gen_case(seed, i, engine, heavy_failures):
     # guarded writes on existing keys keep working (conditioned on the revision a fresh Get reports)
     lines.append("echo probe")
     for k in keys:
-        lines += ["reupdate %s %s" % (hx(k), hx(b"after-restart")), "sync", "get %s 0" % hx(k)]
-    lines += ["create %s %s" % (hx(PREFIX + b"/fresh"), hx(b"x")), "sync", "list %s %s 0 0" % (hx(PREFIX + b"/"), hx(PREFIX + b"0"))]
+        lines += ["reupdate %s %s" % (hx(k), hx(b"after-restart")), "settle", "get %s 0" % hx(k)]
+    lines += ["create %s %s" % (hx(PREFIX + b"/fresh"), hx(b"x")), "settle", "list %s %s 0 0" % (hx(PREFIX + b"/"), hx(PREFIX + b"0"))]
     return core.Case("backend", lines, {"engine": engine, "keys": keys},
                      compare=lambda op: False)   # wall-clock / TSO revisions: judged by the oracle only
 
